@@ -406,7 +406,38 @@ func (g *coreGen) pattern(d int, names *[]string) Node {
 	}
 }
 
+// overlapMatch: only literal patterns, consecutive cases sharing an alternative (also through coercion: "2"
+// against 2), the subject varying from one evaluation to the next: the FIRST matching case is taken every
+// time, whichever case was taken the time before.
+func (g *coreGen) overlapMatch() Node {
+	base := g.r.Intn(3)
+	lit := func(n int) map[string]any {
+		if g.r.Intn(4) == 0 {
+			return map[string]any(cn("plit", "v", map[string]any(cn("str", "v", strconv.Itoa(n)))))
+		}
+		return map[string]any(cn("plit", "v", map[string]any(cn("num", "v", n))))
+	}
+	var cases []any
+	for i := 0; i < 3; i++ {
+		cases = append(cases, map[string]any(cn("case", "pats", []any{lit(base + i), lit(base + i + 1)}, "bk", "expr", "b", map[string]any(cn("str", "v", []string{"low", "mid", "hi"}[i])))))
+	}
+	var subj Node
+	switch {
+	case g.inRule && g.r.Intn(2) == 0:
+		subj = cn("index")
+		if g.r.Intn(2) == 0 {
+			subj = cn("bin", "op", "-", "l", map[string]any(g.num(3+g.r.Intn(2))), "r", map[string]any(cn("index")))
+		}
+	default:
+		subj = cn("bin", "op", "%", "l", map[string]any(cn("var", "n", g.intVar())), "r", map[string]any(g.num(5)))
+	}
+	return cn("match", "e", map[string]any(subj), "cases", cases)
+}
+
 func (g *coreGen) matchExpr(d int) Node {
+	if g.r.Intn(6) == 0 {
+		return g.overlapMatch()
+	}
 	// subject
 	var subj Node
 	direct := false
@@ -545,8 +576,7 @@ func (g *coreGen) assignTarget() string {
 		if g.recursive {
 			return "a"
 		}
-		// also globals: an assignment to an existing global persists after the call
-		return g.pick("l0"+g.self, "l1"+g.self, "a", "g0", "g1")
+		return g.pick("l0"+g.self, "l1"+g.self, "a")
 	}
 	return g.pick("g0", "g1", "g2", "s0r")
 }
@@ -586,6 +616,12 @@ func (g *coreGen) stmt(d int) Node {
 	}
 	if !g.inFn && g.r.Intn(4) == 0 {
 		return g.containerStmt(d)
+	}
+	if !g.inFn && g.r.Intn(12) == 0 {
+		hh := func() Node {
+			return cn("bin", "op", g.pick("+", "-", "*"), "l", map[string]any(cn("call", "f", "hr", "args", []any{})), "r", map[string]any(cn("call", "f", "hb", "args", []any{map[string]any(g.num(1 + g.r.Intn(3)))})))
+		}
+		return cn("print", "args", []any{map[string]any(cn("str", "v", "hh")), map[string]any(hh()), map[string]any(hh())})
 	}
 	if g.r.Intn(7) == 0 {
 		m := g.matchExpr(d)
@@ -638,6 +674,16 @@ func (g *coreGen) stmt(d int) Node {
 		g.inLoop++
 		body := g.block(d-1, 1+g.r.Intn(3))
 		g.inLoop--
+		if g.r.Intn(4) == 0 {
+			// the same literal-only match evaluated on every pass with the loop variable as its subject
+			m := g.overlapMatch()
+			m["e"] = map[string]any(cn("var", "n", v))
+			if g.r.Intn(3) > 0 {
+				// a descending subject: each evaluation would also match the case taken the time before
+				m["e"] = map[string]any(cn("bin", "op", "%", "l", map[string]any(cn("bin", "op", "-", "l", map[string]any(g.num(7+g.r.Intn(2))), "r", map[string]any(cn("var", "n", v)))), "r", map[string]any(g.num(4+g.r.Intn(2)))))
+			}
+			body["b"] = append([]any{map[string]any(cn("print", "args", []any{map[string]any(cn("str", "v", "ov")), map[string]any(m)}))}, body["b"].([]any)...)
+		}
 		return cn("for", "init", map[string]any(cn("asg", "n", v, "op", "=", "e", map[string]any(g.num(g.r.Intn(2))))),
 			"c", map[string]any(g.hdrCond(cn("bin", "op", g.pick("<", "<="), "l", map[string]any(cn("var", "n", v)), "r", map[string]any(g.num(1+g.r.Intn(4)))), outer)),
 			"post", map[string]any(cn("inc", "n", v, "op", "++", "post", g.r.Intn(2) == 0)), "b", map[string]any(body))
@@ -687,13 +733,27 @@ func (g *coreGen) function(name string) Node {
 	for i := 0; i < n; i++ {
 		stmts = append(stmts, map[string]any(g.stmt(2)))
 	}
+	if !recursive && g.r.Intn(2) == 0 {
+		h := g.pick("h0", "h1")
+		rhs := cn("bin", "op", g.pick("+", "-"), "l", map[string]any(cn("var", "n", h)), "r", map[string]any(g.num(1+g.r.Intn(4))))
+		if g.r.Intn(3) == 0 {
+			rhs = cn("bin", "op", "+", "l", map[string]any(cn("var", "n", "a")), "r", map[string]any(g.num(g.r.Intn(4))))
+		}
+		hs := map[string]any(cn("expr", "e", map[string]any(cn("asg", "n", h, "op", "=", "e", map[string]any(rhs)))))
+		k := g.r.Intn(len(stmts) + 1)
+		stmts = append(stmts[:k], append([]any{hs}, stmts[k:]...)...)
+	}
 	if recursive {
 		rec := cn("call", "f", name, "args", []any{map[string]any(cn("bin", "op", "-", "l", map[string]any(cn("var", "n", "a")), "r", map[string]any(g.num(1)))), map[string]any(g.num(g.r.Intn(4)))})
 		stmts = append(stmts, map[string]any(cn("return", "e", map[string]any(cn("bin", "op", g.pick("+", "*", "-"), "l", map[string]any(g.intExpr(1)), "r", map[string]any(rec))))))
 	} else if g.r.Intn(3) == 0 {
 		// the value of a global at the time of the return (not the variable itself: a later assignment
-		// to it, e.g. by the next call in the same expression, does not change what was returned)
-		stmts = append(stmts, map[string]any(cn("return", "e", map[string]any(cn("var", "n", g.pick("g0", "g1"))))))
+		// to it, e.g. by the next call in the same expression, does not change what was returned).
+		// h0 / h1 are globals only functions assign (an assignment to an existing global persists), with
+		// call-free right-hand sides; outside functions they are only printed in statements of their own:
+		// an operand that is a plain variable is read when its operator is applied, i.e. after a later
+		// operand's call may have changed it - an order the statement does not fix.
+		stmts = append(stmts, map[string]any(cn("return", "e", map[string]any(cn("var", "n", g.pick("h0", "h1"))))))
 	} else if g.r.Intn(3) > 0 {
 		stmts = append(stmts, map[string]any(cn("return", "e", map[string]any(g.anyExpr(2)))))
 	}
@@ -716,7 +776,7 @@ func (g *coreGen) program() Node {
 		g.fns = append(g.fns, name)
 	}
 	var stmts []any
-	for _, v := range []string{"g0", "g1", "g2", "i", "j"} {
+	for _, v := range []string{"g0", "g1", "g2", "i", "j", "h0", "h1"} {
 		stmts = append(stmts, map[string]any(cn("expr", "e", map[string]any(cn("asg", "n", v, "op", "=", "e", map[string]any(g.num(1+g.r.Intn(6))))))))
 	}
 	stmts = append(stmts, map[string]any(cn("expr", "e", map[string]any(cn("asg", "n", "s0", "op", "=", "e", map[string]any(cn("str", "v", "ab")))))))
@@ -727,6 +787,13 @@ func (g *coreGen) program() Node {
 	for i := 0; i < n; i++ {
 		stmts = append(stmts, map[string]any(g.stmt(3)))
 	}
+	// hr returns the global h0 as a bare variable, hb assigns it: in hr() + hb(..) the left value is what hr returned
+	fns = append(fns, map[string]any(cn("fn", "name", "hr", "params", []any{}, "body",
+		map[string]any(cn("block", "b", []any{map[string]any(cn("return", "e", map[string]any(cn("var", "n", "h0"))))})))))
+	fns = append(fns, map[string]any(cn("fn", "name", "hb", "params", []any{"a"}, "body",
+		map[string]any(cn("block", "b", []any{
+			map[string]any(cn("expr", "e", map[string]any(cn("asg", "n", "h0", "op", "=", "e", map[string]any(cn("bin", "op", "+", "l", map[string]any(cn("var", "n", "h0")), "r", map[string]any(cn("num", "v", 3)))))))),
+			map[string]any(cn("return", "e", map[string]any(cn("var", "n", "a"))))})))))
 	fns = append(fns, map[string]any(cn("fn", "name", "idf", "params", []any{"x"}, "body",
 		map[string]any(cn("block", "b", []any{map[string]any(cn("return", "e", map[string]any(cn("var", "n", "x"))))})))))
 	// pattern rules over the input array: patterns and bodies use $ and $index
@@ -754,7 +821,8 @@ func (g *coreGen) program() Node {
 		rules = append(rules, map[string]any{"pat": pat, "body": map[string]any(body)})
 	}
 	g.inRule = false
-	end := []any{map[string]any(cn("print", "args", []any{map[string]any(cn("str", "v", "end")), map[string]any(cn("var", "n", "g0")), map[string]any(cn("var", "n", "g1")), map[string]any(cn("var", "n", "s0")), map[string]any(cn("dollar"))})),
+	end := []any{map[string]any(cn("print", "args", []any{map[string]any(cn("str", "v", "h")), map[string]any(cn("var", "n", "h0")), map[string]any(cn("var", "n", "h1"))})),
+		map[string]any(cn("print", "args", []any{map[string]any(cn("str", "v", "end")), map[string]any(cn("var", "n", "g0")), map[string]any(cn("var", "n", "g1")), map[string]any(cn("var", "n", "s0")), map[string]any(cn("dollar"))})),
 		map[string]any(cn("print", "args", []any{map[string]any(cn("var", "n", "r0")), map[string]any(cn("var", "n", "r1")), map[string]any(cn("var", "n", "o0"))})),
 		map[string]any(cn("if", "c", map[string]any(cn("var", "n", "cnt")), "th", map[string]any(cn("block", "b", []any{map[string]any(cn("print", "args", []any{map[string]any(cn("str", "v", "cnt")), map[string]any(cn("var", "n", "cnt"))}))})), "el", map[string]any(cn("none"))))}
 	if g.r.Intn(2) == 0 {
